@@ -267,7 +267,7 @@ fn run_one(c: &mut Case) {
 
 pub fn run(ctx: &Ctx, evidence: Option<&PathBuf>) -> i32 {
     ctx.run_fixed("directed", ctx.dn(400), run_one);
-    let n = ctx.size(20_000, 2_000_000);
+    let n = ctx.size3(20_000, 2_000_000, 5);
     ctx.run_cases("closed-loop", n, run_one);
     ctx.gate("connections_completed", 200);
     ctx.gate("input_suspension_points_checked", 1000);
